@@ -344,3 +344,71 @@ func VerifC12ProofKeyBinding() {
 		verifrt.Assert(q.IsValid(nil) != nil, "C12.changing-the-proved-key-in-a-proof-makes-validation-or-proof-verification-fail(a-key-no-node-of-the-tree-carries-must-not-be-proved)")
 	}
 }
+
+
+// VerifC12LongKeys: the same commitments for long keys (the hash preimage is key || left || right,
+// whatever the key length): a tree of 3 nodes whose keys are 70 / 100 / 130 bytes (thorough: also
+// 200) long, with one symbolic byte somewhere in the key of one node (first, middle, last byte).
+// Changing that byte changes the root; putting the changed key into the valid tree (hash kept)
+// makes validation fail.
+func VerifC12LongKeys() {
+	lens := []int{70, 100, 130, 200}
+	klen := lens[verifrt.NondetChoice("keylen", verifrt.Bound("longkeylens", 3, 4))]
+	n := 3
+	m := verifrt.NondetChoice("node", n)
+	pos := []int{0, klen / 2, klen - 1}[verifrt.NondetChoice("byte", 3)]
+	mk := func(node int, b byte) string {
+		k := make([]byte, klen)
+		for i := range k {
+			k[i] = byte('a' + (i+node)%23)
+		}
+		k[0] = byte('A' + node) // keys of different nodes differ
+		if node == m {
+			k[pos] = b
+		}
+		return string(k)
+	}
+	b1 := verifrt.NondetU8("b1")
+	b2 := verifrt.NondetU8("b2")
+	verifrt.Assume(b1 != b2)
+	verifrt.Assume(b1 >= 'a' && b1 <= 'z' && b2 >= 'a' && b2 <= 'z')
+	keys1 := []string{mk(0, b1), mk(1, b1), mk(2, b1)}
+	keys2 := []string{mk(0, b2), mk(1, b2), mk(2, b2)}
+	t1 := verifC12Build(keys1)
+	t2 := verifC12Build(keys2)
+	verifrt.Reach("C12.longkeys.built")
+	verifrt.Assert(t1.IsValid(nil) == nil && t2.IsValid(nil) == nil, "C12.writer-built-tree-validates")
+	verifrt.Assert(!t1.Root().Equal(t2.Root()), "C12.root-changes-whenever-any-node's-key-changes(long-keys)")
+	nodes := make([]Node, n)
+	copy(nodes, t1.Nodes())
+	nodes[m] = BaseNode{key: keys2[m], h: t1.Node(uint64(m)).Hash()}
+	mt, err := NewTree(verifC12Hint, nodes)
+	verifrt.Assert(err == nil, "C12.harness.newtree")
+	verifrt.Assert(mt.IsValid(nil) != nil, "C12.changing-any-key-in-the-tree-makes-validation-fail(long-keys)")
+	// the proof of a long key verifies, and not for the changed key
+	p, err := t1.Proof(keys1[m])
+	verifrt.Assert(err == nil && p.Prove(keys1[m]) == nil, "C12.for-every-key-in-a-valid-tree-the-extracted-proof-verifies(long-keys)")
+}
+
+// VerifC12ValidateMutateValidate: validation is about the tree as it is NOW: a tree that validated,
+// then had one node replaced through Tree.Set (key or hash changed), does not validate any more —
+// also not a copy of the Tree value taken before the change.
+func VerifC12ValidateMutateValidate() {
+	n := verifC12Size("vmvsize", 3, 5)
+	keys := verifC12Keys(n, false)
+	tr := verifC12Build(keys)
+	cp := tr // a copy of the value (shares the nodes)
+	verifrt.Assert(tr.IsValid(nil) == nil, "C12.writer-built-tree-validates")
+	m := verifrt.NondetChoice("node", n)
+	old := tr.Node(uint64(m))
+	var nn Node
+	if verifrt.NondetChoice("field", 2) == 0 {
+		nn = BaseNode{key: verifC12OtherKey(old.Key()), h: old.Hash()}
+	} else {
+		nn = BaseNode{key: old.Key(), h: verifC12OtherHash(old.Hash().Bytes())}
+	}
+	verifrt.Assert(tr.Set(uint64(m), nn) == nil, "C12.harness.set")
+	verifrt.Reach("C12.vmv.mutated")
+	verifrt.Assert(tr.IsValid(nil) != nil, "C12.changing-any-key-or-hash-in-the-tree-makes-validation-fail(after-an-earlier-successful-validation)")
+	verifrt.Assert(cp.IsValid(nil) != nil, "C12.changing-any-key-or-hash-in-the-tree-makes-validation-fail(seen-through-a-copy-of-the-tree-value)")
+}
